@@ -23,9 +23,18 @@ def make_exact(h):
     return (h + 1.0) - 1.0
 
 
+def parity_of(r, m, order, method_order):
+    """`LogRule._parity` (a private attachment point): with the pinned signature (method, order, method_order), or without the last
+    argument if a rewrite dropped it"""
+    try:
+        return r._parity(m, order, method_order)
+    except TypeError:
+        return r._parity(m, order)
+
+
 def impl_props(LogRule, m, n, o):
     r = LogRule(n=n, method=m, order=o)
-    p = r._parity(m, n - 1, r.method_order)
+    p = parity_of(r, m, n - 1, r.method_order)
     step = r.richardson_step
     try:
         mid = r._get_middle_name()
@@ -142,7 +151,7 @@ def run(ctx):
         if len(w) != len(wq):
             ctx.mismatch('rule.weights', [m, n, o, rho], len(w), len(wq), 'length')
             continue
-        p = r._parity(m, n - 1, r.method_order)
+        p = parity_of(r, m, n - 1, r.method_order)
         cond = np.linalg.cond(LogRule._fd_matrix(rho, p, len(w)))
         if cond > COND_LIMIT:
             eng['skipped'] += 1
@@ -173,7 +182,7 @@ def run(ctx):
     for (m, n, o, rho), w in todo:
         r = LogRule(n=n, method=m, order=o)
         step, mo = r.richardson_step, r.method_order
-        p = r._parity(m, n - 1, mo)
+        p = parity_of(r, m, n - 1, mo)
         cond = np.linalg.cond(LogRule._fd_matrix(rho, p, len(w)))
         if cond > COND_LIMIT:
             ctx.tried()
